@@ -35,9 +35,14 @@ Inductive step :=
 | SRecvAwait (ch : N)                   (* receive a boxed Sleep from channel ch (log), await it (log) *)
 | STimeoutRecv (d ch : N)               (* timeout(d, receive from channel ch).await; a received Sleep is dropped *)
 | SSelRecv (recv_first : bool) (ch d : N)   (* select! { biased; x = receive from ch => 0 (x dropped), sleep(d) => 1 } *)
-| SKeep (rearm : bool) (d0 d2 x d3 : N).   (* keep-alive timer: boxed sleep(d0) polled once, armed with reset(now + d2);
+| SKeep (rearm : bool) (d0 d2 x d3 : N)    (* keep-alive timer: boxed sleep(d0) polled once, armed with reset(now + d2);
                                               select! { biased; it => 0, sleep(x) => 1 }; on 1: re-armed with
                                               reset(now + d3) and awaited, or dropped *)
+| SWrap (wrapper_first : bool) (d : N).    (* same task, other waker: Box::pin(sleep(d)) polled once with the task's own
+                                              waker, then awaited through a sub-executor that polls it with ITS waker
+                                              (and only when that waker was woken); wrapper_first: the other way round.
+                                              The stored waker is the one of the LAST poll (Futures.v note_poll); every
+                                              waker of a task wakes that task, so the model keeps one identity per task *)
 
 Inductive vstate := VSleep (s : sleep) | VFlip (polled : bool) | VRecv (ch : N) | VGot (s : sleep).
 
@@ -225,6 +230,9 @@ Definition start_step0 (now : N) (s : step) (iv : option interval) (dr : driver)
     let '(_, s1, dr1) := sleep_poll now (sleep_new (dl now d0) nid) dr in
     let '(s2, dr2) := sleep_reset s1 (dl now d2) dr1 in
     (Some (AwKeep rearm d3 s2 (sleep_new (now + x) (nid + 1))), iv, dr2, nid + 2, lg)
+  | SWrap _ d =>
+    let '(_, s1, dr1) := sleep_poll now (sleep_new (dl now d) nid) dr in
+    (Some (AwSleep s1), iv, dr1, nid + 1, lg)
   end.
 
 (* ... for task k of module m, with the channels *)
@@ -470,7 +478,7 @@ Definition run_tasks (wfix : bool) (ts : list task) : world * bool :=
    task   := len [ mod start step* ]      (length-prefixed)   module = mod mod modules;
                                           start = 0: spawned by at_sim_start, else by a message at [start]
    step   := 1 d | 2 t | 3 d k x | 4 f a b | 5 p beh k b1..bk | 6 f d1 d2 | 7 d | 8 | 9 ch d | 10 ch
-             | 11 d ch | 12 f ch d | 13 f d0 d2 x d3
+             | 11 d ch | 12 f ch d | 13 f d0 d2 x d3 | 14 f d
      3: timeout(d, if k even then sleep(x) else flip)       4: f odd = `biased;`
      5: interval(max 1 p), behaviour beh mod 3 (0 Burst 1 Delay 2 Skip), k ticks, after tick i
         sleep(b_i) if b_i > 0                               6: f odd = polled once before the reset
@@ -480,7 +488,9 @@ Definition run_tasks (wfix : bool) (ts : list task) : world * bool :=
      12: select! { biased; receive from ch => 0, sleep(d) => 1 }, f odd: the receive branch comes first
      13: keep-alive timer: Box::pin(sleep(d0)) polled once, reset(now + d2); select!{ biased; it => 0, sleep(x) => 1 };
          on 1: f odd: reset(now + d3) and await, f even: drop
-     a duration >= 2^61 is Duration::MAX (steps 3 4 6 7 11 12 13): the deadline is SimTime::MAX, printed as 2^62 - 1 *)
+     14: Box::pin(sleep(d)) polled once with the task's waker, then awaited through a sub-executor with its own waker
+         (f odd: first through the sub-executor, then awaited directly)
+     a duration >= 2^61 is Duration::MAX (steps 3 4 6 7 11 12 13 14): the deadline is SimTime::MAX, printed as 2^62 - 1 *)
 Definition beh_of (b : N) : behaviour :=
   if b mod 3 =? 0 then Burst else if b mod 3 =? 1 then Delay else Skip.
 
@@ -507,6 +517,7 @@ Definition dec_step (l : list N) : option (list step * list N) :=
   | 11 :: d :: ch :: r => Some ([STimeoutRecv d ch], r)
   | 12 :: f :: ch :: d :: r => Some ([SSelRecv (N.odd f) ch d], r)
   | 13 :: f :: d0 :: d2 :: x :: d3 :: r => Some ([SKeep (N.odd f) d0 d2 x d3], r)
+  | 14 :: f :: d :: r => Some ([SWrap (N.odd f) d], r)
   | _ => None
   end.
 
